@@ -22,7 +22,10 @@ import sys
 
 import jax
 
-jax.config.update("jax_enable_x64", True)
+if not os.environ.get("VERIF_DRIVER_NO_X64"):
+    # most scenarios switch 64-bit mode on first, as the repository's tests do; with VERIF_DRIVER_NO_X64 the process
+    # leaves it to the solver (jax_double_precision), like a user script that just imports mdpax
+    jax.config.update("jax_enable_x64", True)
 import numpy as np  # noqa: E402
 
 from mdpax.utils import _verif  # noqa: E402
@@ -98,6 +101,11 @@ def main():
                 other = make_problem(op["config_with_other_problem"])
                 cfg = cls.Config(problem=other.config, **spec["solver_kw"])
                 solver = cls(problem=problem, config=cfg)
+            elif op.get("config_only"):
+                # configuration-only construction: the solver builds the problem itself from the configuration
+                cfg = cls.Config(problem=problem.config, **dict(spec["solver_kw"], **(op.get("kw") or {})))
+                del problem
+                solver = cls(config=cfg)
             elif op.get("via_config"):
                 # the configuration-object route; "reuse": the SAME configuration object as for the previous solver of
                 # this process, with some fields edited (a parameter sweep)
